@@ -4,6 +4,14 @@ namespace HailVerif.BatchDB
 
 theorem get_nil (k : CKey) : get [] k = 0 := rfl
 
+/-- a procedure that got past `add_attempt`'s foreign keys saw the job row -/
+theorem findJobFk_some {s : State} {b j : Nat} {att inst : Option Nat} {job : Job}
+    (h : findJobFk s b j att inst = some job) : findJob s b j = some job := by
+  unfold findJobFk at h
+  by_cases hf : attemptFkFails s b j att inst = true
+  · simp [hf] at h
+  · simpa [hf] using h
+
 theorem get_cons (e : CKey × Int) (m : List (CKey × Int)) (k : CKey) :
     get (e :: m) k = (if e.1 = k then e.2 else 0) + get m k := by
   unfold get
